@@ -140,3 +140,19 @@ func VP_C19_ReadSign() {
 	}
 	zzvp.Done()
 }
+
+// VP_C19_LongCommit: a well-formed commit whose message has one very long line (beyond the 64 KiB and 96 KiB marks):
+// the decoder returns the whole message or an error, never a message cut short.
+func VP_C19_LongCommit() {
+	n := []int{4200, 70000, 100000, 131000}[zzvp.Choose(4)]
+	long := make([]byte, n)
+	for i := range long {
+		long[i] = 'z'
+	}
+	long[0] = zzvp.Bytes("lb", 1, "a-z")[0]
+	msg := "subject\n" + string(long) + "\nlast line"
+	data := []byte("tree 0123456789012345678901234567890123456789\nauthor A <a@b.cd> 1 +0000\ncommitter A <a@b.cd> 1 +0000\n\n" + msg + "\n")
+	c, err := NewCommit(&Object{Type: CommitObject, Size: len(data), Data: data, Hash: sha.SHA1(vpFixedID)})
+	zzvp.Assert(err != nil || (c != nil && c.Message == msg), "a commit that is accepted is decoded faithfully: its message is the whole text after the blank line")
+	zzvp.Done()
+}
